@@ -179,6 +179,51 @@ namespace c15
         io.lv_after = lv;
     }
 
+    // a dispatcher object kept and invoked twice, built from an rvalue functor with a non-const call operator and its own state
+    struct ProbeStateful
+    {
+        DispIO** cur; // where the current invocation records what it saw
+        int invocations = 0;
+        template <class A>
+        __attribute__((noinline)) long operator()(A, int& lv, const int& cv, Token tok)
+        {
+            DispIO& o = **cur;
+            ++invocations;
+            o.calls++;
+            o.arch = arch_id<A>::value;
+            if (o.first_arch < 0)
+                o.first_arch = o.arch;
+            o.lv_seen = lv;
+            o.cv_seen = cv;
+            o.tok_seen = tok.payload;
+            lv = lv * 3 + 1;
+            o.ret_expected = ret_value(o.arch, o.lv_seen, cv, tok.payload) + invocations;
+            return o.ret_expected;
+        }
+    };
+
+    template <class L>
+    void run_twice(DispIO& io, DispIO& io2)
+    {
+        DispIO* cur = &io;
+        auto d = xsimd::dispatch<L>(ProbeStateful { &cur });
+        {
+            int lv = io.lv_in;
+            const int cv = io.cv_in;
+            Token tok(io.tok_in, &io.copies, &io.moves);
+            io.ret_got = d(lv, cv, std::move(tok));
+            io.lv_after = lv;
+        }
+        cur = &io2;
+        {
+            int lv = io2.lv_in;
+            const int cv = io2.cv_in;
+            Token tok(io2.tok_in, &io2.copies, &io2.moves);
+            io2.ret_got = d(lv, cv, std::move(tok));
+            io2.lv_after = lv;
+        }
+    }
+
     template <class L>
     struct list_ids;
     template <class... A>
@@ -199,12 +244,13 @@ namespace c15
         const int* ids;
         void (*val)(DispIO&);
         void (*ref)(DispIO&);
+        void (*twice)(DispIO&, DispIO&);
     };
 
     template <class L>
     ListEntry make_entry(const char* kind)
     {
-        return ListEntry { kind, list_ids<L>::n, list_ids<L>::get(), &run_val<L>, &run_ref<L> };
+        return ListEntry { kind, list_ids<L>::n, list_ids<L>::get(), &run_val<L>, &run_ref<L>, &run_twice<L> };
     }
 
     template <class C, class P>
